@@ -24,6 +24,35 @@ Qed.
 Lemma k_chi2_df df dt : src_chi2_df df dt = (4 * rhe (df * dt))%Z.
 Proof. unfold src_chi2_df. first [reflexivity | (f_equal; apply rhe_proper; first [reflexivity | ring])]. Qed.
 
+(* the bundled table's columns: row * (dt / obs_dt), the same expression for the three columns *)
+Lemma k_obs_entries row dt :
+  src_obs_mean_entry row dt == default_entry row dt /\ src_obs_std_entry row dt == default_entry row dt /\ src_obs_min_entry row dt == default_entry row dt.
+Proof.
+  unfold src_obs_mean_entry, src_obs_std_entry, src_obs_min_entry, default_entry, obs_dt.
+  split; [|split]; first [reflexivity | ring | (field; discriminate)].
+Qed.
+Lemma default_entry_at_obs_dt row : default_entry row obs_dt == row.
+Proof. unfold default_entry, obs_dt. field. Qed.
+Lemma default_entry_homogeneous row dt c : default_entry row (c * dt) == c * default_entry row dt.
+Proof. unfold default_entry, obs_dt. field. Qed.
+Lemma default_entry_monotone a b dt : 0 <= dt -> a <= b -> default_entry a dt <= default_entry b dt.
+Proof.
+  intros Hd Hab. unfold default_entry. apply Qmult_le_compat_r; [exact Hab|].
+  unfold Qdiv. apply Qmult_le_0_compat; [exact Hd|]. apply Qinv_le_0_compat. unfold obs_dt. discriminate.
+Qed.
+(* the deviation recorded for chi-squared noise, sqrt(2k) * x_mean / k, squares to the model's variance 2 x_mean^2 / k; the
+   table variant of the method computes the same expression *)
+Lemma k_chi2_std m k r : (0 < k)%Z -> r * r == 2 * inject_Z k ->
+  src_chi2_std m k r * src_chi2_std m k r == chi2_var m (inject_Z k) /\ src_chi2_std_obs m k r == src_chi2_std m k r.
+Proof.
+  intros Hk Hr. assert (Hq : ~ inject_Z k == 0). { intro E. assert (0 < inject_Z k) by (rewrite Zlt_Qlt in Hk; exact Hk). rewrite E in H. apply (Qlt_irrefl 0 H). }
+  split.
+  - unfold src_chi2_std, chi2_var.
+    assert (E : (r * m / inject_Z k) * (r * m / inject_Z k) == (r * r) * (m * m) / (inject_Z k * inject_Z k)) by (field; exact Hq).
+    rewrite E, Hr. field. exact Hq.
+  - unfold src_chi2_std_obs, src_chi2_std. first [reflexivity | ring | (field; exact Hq)].
+Qed.
+
 Theorem k11_all s i sigma r : ~ sigma == 0 -> ~ r == 0 ->
   src_get_intensity s sigma r == get_intensity_q s sigma r /\ src_get_snr i sigma r == get_snr_q i sigma r.
 Proof.
